@@ -60,6 +60,9 @@ Inductive case :=
 | COld (inner : bytes) (obs : option bytes)
 (* PutClassAdRaw(exprs, my, tg) + trailer on a real stream, then the three real receivers *)
 | CWire (exprs : list bytes) (my tg : bytes) (runs : list wrun)
+(* a peer that writes marker + secret as two ordinary strings (no crypto toggle), as C++ does on an
+   encrypted stream: items flagged true are preceded by the marker *)
+| CWireManual (items : list (bool * bytes)) (my tg : bytes) (runs : list wrun)
 (* PutClassAdWithOptions (private attributes included) + trailer, then the three receivers *)
 | CWireAd (opts : N) (attrs : list (bytes * bytes)) (my tg : bytes) (runs : list wrun).
 
@@ -80,6 +83,13 @@ Fixpoint all2 {A B} (f : A -> B -> bool) (a : list A) (b : list B) : bool :=
 Definition put_raw (st : sstate) (exprs : list bytes) (my tg : bytes) : sstate :=
   let st1 := s_put_int st (Z.of_nat (length exprs)) in
   let st2 := fold_left s_put_string exprs st1 in
+  s_put_string (s_put_string st2 my) tg.
+
+Definition put_manual (st : sstate) (items : list (bool * bytes)) (my tg : bytes) : sstate :=
+  let st1 := s_put_int st (Z.of_nat (length items)) in
+  let st2 := fold_left (fun st (it : bool * bytes) =>
+                          if fst it then s_put_string (s_put_string st secret_marker) (snd it)
+                          else s_put_string st (snd it)) items st1 in
   s_put_string (s_put_string st2 my) tg.
 
 Definition trailer_int : Z := 24225%Z.
@@ -125,6 +135,7 @@ Definition check_case (c : case) : bool :=
       | _, _ => false
       end
   | CWire exprs my tg runs => forallb (check_wrun (fun st => put_raw st exprs my tg)) runs
+  | CWireManual items my tg runs => forallb (check_wrun (fun st => put_manual st items my tg)) runs
   | CWireAd opts attrs my tg runs =>
       forallb (check_wrun (fun st => put_ad {| c_opts := opts; c_whitelist := []; c_enc_attrs := []; c_peer := None |} st
                                         {| ad_attrs := attrs; ad_mytype := my; ad_targettype := tg |})) runs
